@@ -1,7 +1,8 @@
 From Coq Require Import List NArith ZArith Bool Sorted Permutation.
 From V.gen Require Consts DialErrors.
-From V.C10 Require Import Model Proofs.
-From V.C10 Require ErrNames.
+From V.C10 Require Import Model IpClass Proofs.
+From V.C10 Require ErrNames KadStore.
+From V.C14 Require AddrModel.
 Import ListNotations.
 From V.C10 Require Import Properties.
 Check (C10_bound :
@@ -19,6 +20,20 @@ Check (C10_accept_implies_dialable :
 Check (C10_offer_filter :
   forall c ls peer l a, In a (accepted c ls peer l) ->
     In a l /\ supported c a = true /\ is_local c ls a = false /\ last a (Other 0) = P2p peer).
+Check (C10_service_offer_filter :
+  forall c ls peer l a, In a (accepted c ls peer (ts_prepare peer l)) ->
+    (exists a0, In a0 l /\
+       ((last a0 (Other 0) = P2p peer /\ a = a0) \/
+        ((forall q, last a0 (Other 0) <> P2p q) /\ a = a0 ++ [P2p peer]))) /\
+    supported c a = true /\ is_local c ls a = false /\ last a (Other 0) = P2p peer).
+Check (C10_litep2p_level :
+  forall c k ls h p s a z,
+    only_adds h ->
+    get p (bk (fst (run c k (mkState [] ls 0 []) h))) = Some s -> In (a, z) s ->
+    (supported c a = true /\ is_local c ls a = false /\ last a (Other 0) = P2p p) /\
+    (enabled c (route c a) = true /\
+     exists ho port, parse (route c a) a = Some (ho, port, Some p) /\
+                     host_unspecified ho = false)).
 Check (C10_listen_monotone :
   forall c l1 l2 a, incl l1 l2 -> is_local c l2 a = false -> is_local c l1 a = false).
 Check (C10_remembered_acceptable :
@@ -35,18 +50,33 @@ Check (C10_remembered_dialable :
     get p (bk (fst (run c k (mkState [] L0 0 []) h))) = Some s -> In (a, z) s ->
     last a (Other 0) = P2p p /\ enabled c (route c a) = true /\
     exists ho port, parse (route c a) a = Some (ho, port, Some p)).
+Check (C10_remembered_not_own_listen :
+  forall c k L0 h p s a z,
+    Forall (op_strict c L0) h ->
+    get p (bk (fst (run c k (mkState [] L0 0 []) h))) = Some s -> In (a, z) s ->
+    (last a (Other 0) = P2p p /\ enabled c (route c a) = true /\
+     exists ho port, parse (route c a) a = Some (ho, port, Some p)) /\
+    forall l, In l L0 -> strip_p2p a <> l /\ strip_p2p a <> l ++ [P2p (local_peer c)]).
+Check (C10_api_histories :
+  forall c k L0 h p s a z,
+    Forall api_op h ->
+    get p (bk (fst (run c k (mkState [] L0 0 []) h))) = Some s -> In (a, z) s ->
+    (last a (Other 0) = P2p p /\ enabled c (route c a) = true /\
+     exists ho port, parse (route c a) a = Some (ho, port, Some p)) /\
+    forall l, In l L0 -> strip_p2p a <> l /\ strip_p2p a <> l ++ [P2p (local_peer c)]).
 Check (C10_dial_address_filter :
   forall c st a t q,
     dial_addr_check c st a = DAOk t q ->
     free_capacity c st 0 <> None /\
-    existsb (maddr_eqb a) (listen_set c (lst st)) = false /\
+    (existsb (maddr_eqb a) (listen_set c (lst st)) = false /\
+     existsb (maddr_eqb (strip_p2p a)) (listen_set c (lst st)) = false) /\
     route c a = t /\
     (last a (Other 0) = P2p q /\ enabled c (route c a) = true /\
      exists ho port, parse (route c a) a = Some (ho, port, Some q))).
 Check (C10_supported_implies_dial_address :
   forall c st a,
     supported c a = true -> free_capacity c st 0 <> None ->
-    existsb (maddr_eqb a) (listen_set c (lst st)) = false ->
+    own_listen c (lst st) a = false ->
     exists q, last a (Other 0) = P2p q /\ dial_addr_check c st a = DAOk (route c a) q).
 Check (C10_step_preserves :
   forall c k L0 st o,
@@ -105,18 +135,19 @@ Check (C10_dial_order_validator_sound :
 Check (C10_dial_order_validator_complete :
   forall limit s, NoDup (keys s) -> addresses_ok limit s (addresses limit s) = true).
 Check (C10_dial_tries :
-  forall c k st peer outcome errs tcp ws t w st',
-  step c k st (ODial peer outcome errs tcp ws) = (st', RDial (DTried t w)) ->
+  forall c k st peer outcome errs tcp ws qu t w q st',
+  step c k st (ODial peer outcome errs tcp ws qu) = (st', RDial (DTried t w q)) ->
   let s := get_or_empty peer (bk st) in
   exists limit,
     free_capacity c st (length s) = Some limit /\
     peer <> local_peer c /\
-    t = with_scores s tcp /\ w = with_scores s ws /\
-    addresses_ok limit s (merge_desc t w) = true /\
-    Permutation (merge_desc t w) (t ++ w) /\
+    t = with_scores s tcp /\ w = with_scores s ws /\ q = with_scores s qu /\
+    addresses_ok limit s (merge_desc (merge_desc t w) q) = true /\
+    Permutation (merge_desc (merge_desc t w) q) (t ++ w ++ q) /\
     Forall (fun a => In a (keys s) /\ names peer a = true /\ route c a = TTcp /\ enabled c TTcp = true) tcp /\
     Forall (fun a => In a (keys s) /\ names peer a = true /\ route c a = TWs /\ enabled c TWs = true) ws /\
-    st' = set_bk st (put peer (dial_outcome k s peer outcome errs tcp ws) (bk st))).
+    Forall (fun a => In a (keys s) /\ names peer a = true /\ route c a = TQuic /\ enabled c TQuic = true) qu /\
+    st' = set_bk st (put peer (dial_outcome k s peer outcome errs tcp ws qu) (bk st))).
 Check (C10_free_capacity :
   forall c st n limit,
   free_capacity c st n = Some limit ->
@@ -125,11 +156,12 @@ Check (C10_free_capacity :
   | None => limit = n
   end).
 Check (C10_dial_all_fail :
-  forall k s peer errs tcp ws b,
-  NoDup (keys s) -> NoDup (tcp ++ ws) -> (forall a, In a (tcp ++ ws) -> In a (keys s)) ->
+  forall k s peer errs tcp ws qu b,
+  NoDup (keys s) -> NoDup (tcp ++ ws ++ qu) -> (forall a, In a (tcp ++ ws ++ qu) -> In a (keys s)) ->
   (forall e, error_score k e <> 0%Z) ->
-  find b (dial_outcome k s peer 0 errs tcp ws) =
-    match lookup_err b (tag_errs errs 0 tcp ++ tag_errs errs (length tcp) ws) with
+  find b (dial_outcome k s peer 0 errs tcp ws qu) =
+    match lookup_err b (tag_errs errs 0 tcp ++ tag_errs errs (length tcp) ws ++
+                        tag_errs errs (length tcp + length ws) qu) with
     | Some e => Some (error_score k e)
     | None => find b s
     end).
@@ -148,6 +180,9 @@ Check (C10_error_variants_in_sync :
   ErrNames.model_variants = DialErrors.variants /\ ErrNames.model_gates = DialErrors.gates).
 Check (C10_store_sites_in_sync :
   ErrNames.model_store_sites = DialErrors.store_sites).
+Check (C10_entry_sites_in_sync :
+  ErrNames.model_entry_sites = DialErrors.entry_sites /\
+  ErrNames.listen_before_known DialErrors.new_call_order = true).
 Check (C10_error_kinds_enumerated :
   forall e, In e all_dial_errors /\ err_of_code (err_code e) = Some e).
 Check (C10_error_score_negative :
@@ -208,6 +243,16 @@ Check (C10_dial_address_new_step :
   (exists s', get q (bk st') = Some s' /\ find a s' = Some sc /\ keys s' = keys s ++ [a] /\
               forall b, b <> a -> find b s' = find b s) /\
   (forall p, p <> q -> get p (bk st') = get p (bk st))).
+Check (C10_dial_address_refused_step :
+  forall c k st a vs t q,
+  dial_addr_check c st a = DAOk t q ->
+  let s := get_or_empty q (bk st) in
+  let st' := fst (step c k st (ODialAddrRefused a vs)) in
+  (forall z0, find a s = Some z0 -> get q (bk st') = Some s) /\
+  (find a s = None -> (length s < cap k)%nat ->
+     get q (bk st') = Some (s ++ [(a, new_score k a 0%Z)])) /\
+  (forall p, p <> q -> get p (bk st') = get p (bk st)) /\
+  lst st' = lst st /\ held st' = held st /\ pubs st' = pubs st).
 Check (C10_saturation :
   forall a b,
   in_i32 (sat_add a b) /\
@@ -217,6 +262,55 @@ Check (C10_saturation :
 Check (C10_scores_in_i32 :
   forall c h p s a z,
   Forall op_i32 h -> get p (bk (final c default_scores h)) = Some s -> In (a, z) s -> in_i32 z).
+Check (C10_ip_classes_exact :
+  (forall ip, is_unspec (classify4 ip) = v4_unspecified ip /\ is_loop (classify4 ip) = v4_loopback ip /\
+              is_glob (classify4 ip) = v4_global ip) /\
+  (forall ip, is_unspec (classify6 ip) = v6_unspecified ip /\ is_loop (classify6 ip) = v6_loopback ip /\
+              is_glob (classify6 ip) = v6_global ip)).
+Check (C10_ip_predicates_concrete :
+  (forall ip, first_ok (comp_of_ip4 ip) = negb (v4_unspecified ip)) /\
+  (forall ip, first_ok (comp_of_ip6 ip) = negb (v6_unspecified ip)) /\
+  (forall ip rest, is_global (comp_of_ip4 ip :: rest) = v4_global ip) /\
+  (forall ip rest, is_global (comp_of_ip6 ip :: rest) = v6_global ip) /\
+  (forall v a port w l lport rest,
+     local_match (ipaddr_of v a) port (ip_comp w l :: Tcp lport :: rest) =
+       N.eqb port lport &&
+       ((Bool.eqb w v && N.eqb l a) ||
+        (conc_unspecified w l && conc_loopback v a) ||
+        (conc_loopback w l && conc_loopback v a)))).
+Check (C10_mapped_ranges :
+  forall c id, (id < 65536)%N -> classify4 (mapped4 c id) = c /\ classify6 (mapped6 c id) = c).
+Check (C10_ip_network_version :
+  DialErrors.ip_network_version = ErrNames.ip_network_0_4_1).
+Check (C10_kad_embedding :
+  forall p,
+    (forall a b, KadStore.emb p a = KadStore.emb p b -> a = b) /\
+    (forall a, is_global (KadStore.emb p a) = AddrModel.is_global a) /\
+    (forall a, with_peer p (KadStore.emb p a) = KadStore.emb p (AddrModel.with_p2p a))).
+Check (C10_kad_store_is_instance :
+  forall p n s a sc v,
+    (I32_MIN <= sc + AddrModel.S_BONUS <= I32_MAX)%Z ->
+    insert (KadStore.kad_scores n) (KadStore.emb_store p s) (KadStore.emb p a) sc (option_map (KadStore.emb p) v) =
+      (KadStore.emb_store p (fst (AddrModel.sinsert n s a sc v)),
+       KadStore.emb_res p (snd (AddrModel.sinsert n s a sc v)))).
+Check (C10_kad_addresses_is_instance :
+  KadStore.kad_scores AddrModel.CAP = default_scores /\
+  forall p limit s,
+    addresses limit (KadStore.emb_store p s) = KadStore.emb_store p (AddrModel.reported limit s)).
+Check (C10_kad_evict_min :
+  forall (p : N) n s a sc v w,
+    (I32_MIN <= sc + AddrModel.S_BONUS <= I32_MAX)%Z -> NoDup (map fst s) ->
+    snd (AddrModel.sinsert n s a sc v) = AddrModel.IEvicted w ->
+    exists m, AddrModel.sfind a s = None /\ (n <= length s)%nat /\ AddrModel.sfind w s = Some m /\
+              (forall b z, In (b, z) s -> (m <= z)%Z) /\
+              AddrModel.sfind w (fst (AddrModel.sinsert n s a sc v)) = None /\
+              length (fst (AddrModel.sinsert n s a sc v)) = length s).
+Check (C10_kad_rescore_exact :
+  forall (p : N) n s a sc v z0,
+    (I32_MIN <= sc + AddrModel.S_BONUS <= I32_MAX)%Z -> AddrModel.sfind a s = Some z0 -> sc <> 0%Z ->
+    snd (AddrModel.sinsert n s a sc v) = AddrModel.IUpdated /\
+    AddrModel.sfind a (fst (AddrModel.sinsert n s a sc v)) = Some sc /\
+    forall b, b <> a -> AddrModel.sfind b (fst (AddrModel.sinsert n s a sc v)) = AddrModel.sfind b s).
 Check (C10_public_addresses_local :
   forall c k h a, In a (pubs (final c k h)) ->
     a <> [] /\ last a (Other 0) = P2p (local_peer c)).
